@@ -227,7 +227,8 @@ class ListField(Field):
             return [item.to_tree() for item in value]
         if isinstance(self.field, Field):
             return [self.field.to_basic(cfg, item) for item in value]
-        return list(value)
+        # a copy at every depth: the tree must not alias the mutable items held by the config
+        return copy.deepcopy(list(value))
 
     def to_python(self, cfg: Config, value: list) -> Union[list, ListProxy]:
         """
